@@ -56,6 +56,24 @@ theorem src_CreateIndexGroup_expected : src_CreateIndexGroup = "{ data.MaxIndexG
 
 theorem src_ShardGroupByTimestamp_expected : src_ShardGroupByTimestamp = "{ for i := len(rpi.ShardGroups) - 1; i >= 0; i-- { sgi := &rpi.ShardGroups[i] if sgi.EngineType == engineType && sgi.Contains(timestamp) && !sgi.Deleted() && (!sgi.Truncated() || timestamp.Before(sgi.TruncatedAt)) { return &rpi.ShardGroups[i] } } return nil }" := by rfl
 
+/-! the command path of ALTER RETENTION POLICY (`Cmd.lean`; the per-field rules are `OG.C14.rpuRule_*`) -/
+
+theorem src_clientUpdateRetentionPolicy_expected : src_clientUpdateRetentionPolicy = "{ var newName *string if rpu.Name != nil { newName = rpu.Name } var replicaN *uint32 if rpu.ReplicaN != nil { value := uint32(*rpu.ReplicaN) replicaN = &value } cmd := &proto2.UpdateRetentionPolicyCommand{ Database: proto.String(database), Name: proto.String(name), NewName: newName, Duration: meta2.GetInt64Duration(rpu.Duration), ReplicaN: replicaN, ShardGroupDuration: meta2.GetInt64Duration(rpu.ShardGroupDuration), MakeDefault: proto.Bool(makeDefault), HotDuration: meta2.GetInt64Duration(rpu.HotDuration), WarmDuration: meta2.GetInt64Duration(rpu.WarmDuration), IndexGroupDuration: meta2.GetInt64Duration(rpu.IndexGroupDuration), IndexColdDuration: meta2.GetInt64Duration(rpu.IndexColdDuration), } return c.retryUntilExec(proto2.Command_UpdateRetentionPolicyCommand, proto2.E_UpdateRetentionPolicyCommand_Command, cmd) }" := by rfl
+
+theorem src_GetDuration_expected : src_GetDuration = "{ if d != nil { value := time.Duration(*d) return &value } return nil }" := by rfl
+
+theorem src_GetInt64Duration_expected : src_GetInt64Duration = "{ if duration != nil { value := int64(*duration) return &value } return nil }" := by rfl
+
+theorem src_LoadDurationOrDefault_expected : src_LoadDurationOrDefault = "{ if duration == nil { return existDuration } return duration }" := by rfl
+
+theorem src_checkGeqThanMinDuration_expected : src_checkGeqThanMinDuration = "{ if rpi.Duration != 0 && rpi.Duration < MinRetentionPolicyDuration { return ErrRetentionPolicyDurationTooLow } if rpi.HotDuration != 0 && rpi.HotDuration < MinRetentionPolicyDuration { return ErrRetentionPolicyDurationTooLow } if rpi.WarmDuration != 0 && rpi.WarmDuration < MinRetentionPolicyWarmDuration { return ErrRetentionPolicyDurationTooLow } if rpi.IndexColdDuration != 0 && rpi.IndexColdDuration < MinRetentionPolicyIndexColdDuration { return ErrRetentionPolicyIndexColdDurationTooLow } return nil }" := by rfl
+
+theorem src_checkGeqThanShardGroupDuration_expected : src_checkGeqThanShardGroupDuration = "{ if rpi.Duration != 0 && rpi.Duration < rpi.ShardGroupDuration { return ErrIncompatibleDurations } if rpi.HotDuration != 0 && rpi.HotDuration < rpi.ShardGroupDuration { return ErrIncompatibleHotDurations } if rpi.WarmDuration != 0 && rpi.WarmDuration < rpi.ShardGroupDuration { return ErrIncompatibleWarmDurations } if rpi.WarmDuration != rpi.Duration && rpi.WarmDuration%rpi.ShardGroupDuration != 0 { return ErrIncompatibleShardGroupDurations } return nil }" := by rfl
+
+theorem minRetentionPolicyDuration_src_expected : minRetentionPolicyDuration_src = "time.Hour" := by rfl
+
+theorem applyUpdateRP_returns_expected : applyUpdateRP_returns = ["data.UpdateRetentionPolicy(v.GetDatabase(), v.GetName(), &rpu, v.GetMakeDefault())"] := by rfl
+
 /-! schema clean after a prune (`Schema.lean`) -/
 
 theorem src_msSchemaClean_expected : src_msSchemaClean = "{ if msti.EngineType != config.TSSTORE { return 0 } endTime := TimeReserveHigh32(sgEndTime) msti.SchemaLock.Lock() defer msti.SchemaLock.Unlock() for k, schemaVal := range *(msti.Schema) { if schemaVal.EndTime <= endTime { delete(*(msti.Schema), k) } } return len(*msti.Schema) }" := by rfl
